@@ -43,6 +43,7 @@ class UnitResult:
         self.assumption_scan = []
         self.vacuity = None
         self.gen_path = ''
+        self.auto_extracted = []    # helper fns of the same file pulled in because an extracted body calls them
 
 
 def scan_assumptions(text):
@@ -233,6 +234,48 @@ def verify_unit(unit, scratch, tier='quick', seed=0, repo=None, vacuity=True):
         res.reason = str(e)
         res.wall_s = time.time() - t0
         return res
+    # Helper functions the unit does not know about (a refactoring moved code into a new private fn of the same
+    # file): extract them too, under the unit's default contract, instead of giving up on the whole unit.
+    auto = unit.get('auto_extract')
+    if auto:
+        unit = dict(unit)
+        unit['fns'] = dict(unit['fns'])
+        for _round in range(4):
+            path0 = os.path.join(scratch, unit['name'] + '__probe.rs')
+            with open(path0, 'w') as f:
+                f.write(asm.text)
+            cmd, rc, diags, summary, wall, stderr = _run_verus(path0, 1, None, extra=['--no-verify'])
+            missing = []
+            for d in diags:
+                m = re.match(r'cannot find function `(\w+)` in this scope', d.get('message', ''))
+                if d.get('level') == 'error' and m and m.group(1) not in missing:
+                    missing.append(m.group(1))
+            if not missing:
+                break
+            added = False
+            for name in missing:
+                key = 'auto_' + name
+                if key in unit['fns']:
+                    continue
+                try:
+                    src = open(os.path.join(repo or unit_mod.REPO, auto['file'])).read()
+                    rustscan.find_fn(src, auto['file'], None, name)
+                except Exception:
+                    continue
+                unit['fns'][key] = auto['make'](name)
+                unit['template'] = unit['template'].replace('} // verus!', f'//@@ {key}\n\n}} // verus!', 1)
+                res.auto_extracted.append(name)
+                added = True
+            if not added:
+                break
+            try:
+                asm = unit_mod.assemble(unit['template'], unit['fns'], repo=repo or unit_mod.REPO)
+            except rustscan.ScanError as e:
+                res.status = 'undecided'
+                res.reason = str(e)
+                res.wall_s = time.time() - t0
+                return res
+    res.unit = unit
     res.rule_hits = asm.rule_hits
     path = os.path.join(scratch, unit['name'] + '.rs')
     with open(path, 'w') as f:
